@@ -24,6 +24,11 @@ def run(ctx):
             jobs.append('%s+keep;%s' % (c, p))
             if i % 2 == 0:
                 jobs.append('%s;%s' % (c, p))
+    # a full ring: the pop that frees a cell against the push that is waiting for exactly that cell (element life-cycle calls are scheduling points)
+    for c, cap in (('vyu2/-/T', 2), ('vyu2/-/U', 2), ('vyu4/-/T', 4), ('nkb2/-/U', 2), ('nkb3/-/T', 4), ('nkb1/-/U', 1), ('bkf1s1/-/U', 1), ('bkf2s1/-/U', 2)):
+        fill = ','.join('push%d' % i for i in range(1, cap + 1))
+        jobs.append('%s+keep;%s;pop;push%d' % (c, fill, cap + 1))
+        jobs.append('%s;%s;pop,pop;push%d,push%d' % (c, fill, cap + 1, cap + 2))
     run_queues(ctx, jobs, pb=2 if q else 3, max_exec=200 if q else 15000)
     if not q:
         run_queues(ctx, jobs, pb=5, max_exec=0, mode='random', runs=600, tagx='r')
